@@ -212,7 +212,7 @@ def default_m(ctx, R):
     # LinearScale.ticks / tickFormat default m is None and is passed through
     for meth in ("ticks", "tickFormat"):
         g = P.func("scale.LinearScale." + meth)
-        d = g.defaults.get("m")
+        d = g.defaults.get(g.params[1]) if len(g.params) > 1 else None  # the count is the first parameter after the receiver
         R.check(d is not None and const_value(d) in (None, 10) and isinstance(d, ast.Constant), "C13.DEFAULT-M", g.qual, where(g), "default count is None (-> 10) or 10", "default count of %s is %s" % (g.qual, ntext(d) if d is not None else "required"))
 
 
